@@ -168,15 +168,31 @@ def main():
         else: key = 'long:fault:%s' % (ft or p.cause); what = '%s %s' % (p.cause, (p.err[-600:] + p.out[-300:]).decode(errors='replace'))
         cut = int(vm.group(2)) + 2 if vm else len(h)
         ctx.violation(key, '%s mode, seed %d: %s' % ('demand' if demand else 'automatic', sd, what), files={'history.txt': '\n'.join(h[:cut] + ['end']) + '\n'})
+    # ---------------- 3. long chains live across collections (marking depth; added after seeded change C09-mark-tail-recursion)
+    nchain = 0
+    def cwork(job):
+        n, sz, lastword, demand = job
+        h = (['demand'] if demand else []) + ['a 0 64 2', 'root 0 0', 'chain %d %d %d' % (n, sz, lastword)]
+        for k in range(1, 40): h += ['a %d %d 2' % (k, 16 + 8 * (k % 9))]          # garbage around it
+        h += ['g', 'chaincheck', 'a 41 4000 2', 'g', 'chaincheck', 'chaindrop', 'g', 'end']
+        p = run([sh, '-a', '0', '-v', '0'], stdin=('\n'.join(h) + '\n').encode(), timeout=1800)
+        return job, h, p
+    cjobs = [(n, sz, lw, dm) for n in (ctx.q(300000, 1500000), 90000) for sz, lw in ((24, 1), (40, 1), (24, 0)) for dm in (True, False)]
+    for job, h, p in pmap(cwork, cjobs):
+        out = p.out.decode(errors='replace')
+        if re.search(r'OK steps=', out) and p.rc == 0: nchain += 1; continue
+        vm = re.search(r'VIOLATION (\S+) step=(\d+)(.*)', out)
+        key = ('chain:%s' % vm.group(1) if vm else 'chain:fault:%s' % (fault_text(p) or p.cause)) + (':link-in-last-word' if job[2] else ':link-in-first-word')
+        ctx.violation(key, 'chain of %d blocks of %d bytes linked through the %s word, %s collector: %s' % (job[0], job[1], 'last' if job[2] else 'first', 'demand' if job[3] else 'automatic', vm.group(0) if vm else p.cause + ' ' + (p.err[-300:]).decode(errors='replace')), files={'history.txt': '\n'.join(h) + '\n'})
     ctx.sample({'random_history_head': rand_history(random.Random(1), 30, True)[:20]})
     ctx.assumptions += ['nothing is asserted about blocks the reachability model finds unreachable after a collection (the collector is conservative)',
                         'conservation is checked as an interval: shadow live bytes <= alloc-free-gc <= live + bytes of forgotten blocks',
                         'ASan cannot observe this allocator (heap from the OS, conservative stack scan); the monitor is the shadow heap plus stoAudit with washing on']
     inconc = None
     if sgcs + lgcs == 0: inconc = 'no collection ever ran'
-    ctx.finish(nshort + nlong, nshort + nlong,
+    ctx.finish(nshort + nlong + nchain, nshort + nlong + nchain,
                'one evaluation = one complete history replayed with per-step checks (alignment, size, overlap, contents, resize prefix, reachable-survives-gc, stoAudit, conservation); short histories enumerated exhaustively, long ones random with phases; every history is distinct',
-               extra={'short_histories': nshort, 'short_length': L, 'short_exhaustive': ctx.tier == 'thorough' or L == 3, 'long_histories': nlong, 'long_steps_total': msteps,
+               extra={'short_histories': nshort, 'short_length': L, 'short_exhaustive': ctx.tier == 'thorough' or L == 3, 'long_histories': nlong, 'chain_histories': nchain, 'long_steps_total': msteps,
                       'allocations': lallocs, 'collections_short': sgcs, 'collections_long': lgcs, 'size_pool': len(size_pool())},
                inconclusive=inconc, min_eval=100)
 
